@@ -74,6 +74,19 @@ check("C11", "fault_enumeration",
       SIM + "link-fault enumeration at every exchange index with scripted reconnection, transport-log ordering oracle",
       "DESIGN.md 4/C11", "manager-world")
 
+check("C12", "exploration",
+      "Seeded schedule search over the real server: comm.server.TCPServer.run and whatever socketserver "
+      "class it instantiates run under the baton scheduler with 2..16 simulated clients (unique request "
+      "contents, drawn connect instants, fragmented lines) and a device that answers after drawn latencies; "
+      "the scheduler draws the running task at every yield point and the accept order. Oracle: in the "
+      "device log tagged with the connection whose line the executing task last read, the APDUs of one "
+      "request are contiguous; each client receives the reply derived from its own request; all clients "
+      "are answered. Sampling of schedules, not enumeration.",
+      "Pre-emption at seam granularity (socket operations, device exchanges, sleeps, thread start/join); a "
+      "forking server is reported as unsupported (exit 2).",
+      SIM + "seeded schedule search over real server code, per-request contiguity and own-reply oracles",
+      "DESIGN.md 4/C12", "manager-world")
+
 check("C13", "exploration",
       "Seeded device states queried through the real stack (getPubKey x6, blockchainState, "
       "blockchainParameters, signerHeartbeat) and one uiHeartbeat mode walk whose USB re-enumeration "
